@@ -197,12 +197,14 @@ def frameV (fp : List Path) (rp : Path) (din : YVal) (dout : Option YVal) : Bool
   else if !reaches fp rp.reverse then dout == some din
   else
     match din, dout with
-    | .obj es, some (.obj fs) => frameEs fp rp es fs && newKeysOK fp rp es fs
+    | .obj es, some (.obj fs) => frameEs fp rp [] es fs && newKeysOK fp rp es fs
     | .arr xs, some (.arr ys) => frameList fp rp xs ys
     | _, _ => dout == some din
-def frameEs (fp : List Path) (rp : Path) : List (Key × YVal) → List (Key × YVal) → Bool
-  | [], _ => true
-  | (k, v) :: es, fs => frameV fp (pk k :: rp) v (lookupE k fs) && frameEs fp rp es fs
+/-- the fields of a mapping, each key once (the first entry counts, as in `lookupE`) -/
+def frameEs (fp : List Path) (rp : Path) : List Key → List (Key × YVal) → List (Key × YVal) → Bool
+  | _, [], _ => true
+  | seen, (k, v) :: es, fs =>
+    (seen.contains k || frameV fp (pk k :: rp) v (lookupE k fs)) && frameEs fp rp (k :: seen) es fs
 def frameList (fp : List Path) (rp : Path) : List YVal → List YVal → Bool
   | [], [] => true
   | x :: xs, y :: ys => frameV fp (.each :: rp) x (some y) && frameList fp rp xs ys
